@@ -114,6 +114,11 @@ impl BBSplusPoKSignature {
         let D = parse_g1_projective(&bytes[96..144])
             .map_err(|_| Error::InvalidProofOfKnowledgeSignature)?;
 
+        // octets_to_proof: none of the points may be the identity
+        if Abar.is_identity().into() || Bbar.is_identity().into() || D.is_identity().into() {
+            return Err(Error::InvalidProofOfKnowledgeSignature);
+        }
+
         let e_cap = Scalar::from_bytes_be(&bytes[144..176])
             .map_err(|_| Error::InvalidProofOfKnowledgeSignature)?;
         let r1_cap = Scalar::from_bytes_be(&bytes[176..208])
